@@ -201,6 +201,12 @@ def tlc_trace(module, cfg, trace, wd, env=None, timeout=1800, name=None, depth_f
     if os.path.exists(outp):
         os.remove(outp)
     e = {"TRACE": trace, "OUT": outp}
+    # TLC's breadth-first search refuses behaviours of 65536 or more states; a single-pass monitor over a longer trace
+    # has to run with the depth-first queue (no such limit: Mon_C09 runs over 460 000 records with it)
+    if not depth_first:
+        with open(trace, "rb") as f:
+            if sum(1 for _ in f) >= 60000:
+                depth_first = True
     if env:
         e.update(env)
     r = run_tlc(module, cfg, wd, env=e, workers=1, timeout=timeout, depth_first=depth_first)
